@@ -1457,7 +1457,14 @@ class GeoboxTiles:
         if target_crs is not None and poly.crs != target_crs:
             poly = poly.to_crs(target_crs, check_and_fix=True)
 
-        yy, xx = self.range_from_bbox(poly.boundingbox)
+        bbox = poly.boundingbox
+        if bbox.crs is None:
+            # no CRS on either side: ``poly`` is in the world coordinates of this raster (it is
+            # compared with the tile extents below), ``range_from_bbox`` reads a box without
+            # CRS as pixels
+            bbox = bbox.polygon.transform(self._gbox.wld2pix).boundingbox
+
+        yy, xx = self.range_from_bbox(bbox)
         for idx in itertools.product(yy, xx):
             gbox = self[idx]
             if not poly.disjoint(gbox.extent):
